@@ -71,12 +71,13 @@ class C11(timed.TimedHarness):
                 out.append(("C11/post-after-cancel/%s" % tag, "source %d posted at (step, time) %r after the cancelling call had returned at step %d, time %s" % (
                     i, late, o["cancel_step"], o["cancel_time"])))
         # the others keep running on schedule
-        out += timed.schedule_violations(PID, p, o, cancelled=cancelled)
+        rejected = list(o.get("raised") or ())       # a source miros refused (tracked list full) owes no schedule
+        out += timed.schedule_violations(PID, p, o, cancelled=cancelled, rejected=rejected)
         left = sorted(o["tracked"])
         # sources that finished on their own stay listed (miros never prunes them): only the cancelled ones must be gone
         want_gone = set(o["ids"][i] for i in cancelled)
         still = [u for (_, u) in o["tracked"] if u in want_gone]
-        others = set(o["ids"][i] for i in range(len(p["sources"])) if i not in cancelled)
+        others = set(o["ids"][i] for i in range(len(p["sources"])) if i not in cancelled and i not in rejected)
         missing = [u for u in others if u not in [x[1] for x in o["tracked"]]]
         if still or missing:
             out.append(("C11/tracked-list/%s" % tag, "cancelled ids still tracked: %r; uncancelled ids no longer tracked: %r" % (still, missing)))
@@ -108,6 +109,14 @@ def params(tier):
     ps.append({"sources": fin, "cancel": {"by": "id", "how": "same", "target": 0, "at": 0.6}, "bound": 0 if q else 1, "time_horizon": 1.5})
     ps.append({"sources": fin, "cancel": {"by": "name", "how": "number", "name": "A", "at": 0.6}, "bound": 0 if q else 1, "time_horizon": 1.5})
     ps.append({"sources": list(reversed(fin)), "cancel": {"by": "id", "how": "copy", "target": 2, "at": 0.6}, "bound": 0, "time_horizon": 1.5})
+    # the tracked list (capacity 3) is full, two of its entries are one-shots that have fired: one more timed post is then
+    # refused (miros keeps finished sources listed) - and whatever happens to it, the live source must stay cancellable
+    full = [{"sig": "A", "period": 0.5, "times": 0, "deferred": True, "kind": "fifo"},
+            {"sig": "B", "period": 0.25, "times": 1, "deferred": True, "kind": "fifo"},
+            {"sig": "C", "period": 0.25, "times": 1, "deferred": True, "kind": "lifo"},
+            {"sig": "D", "period": 0.5, "times": 0, "deferred": True, "kind": "fifo", "at": 0.6}]
+    ps.append({"sources": full, "sub_qsize": 3, "cancel": {"by": "id", "how": "copy", "target": 0, "at": 0.2}, "bound": 0, "time_horizon": 2.0})
+    ps.append({"sources": full, "sub_qsize": 3, "cancel": {"by": "name", "how": "literal", "name": "A", "at": 0.2}, "bound": 0 if q else 1, "time_horizon": 2.0})
     # cancelling something that is not there cancels nothing
     for how in ("unknown", "none"):
         ps.append({"sources": SRC3, "cancel": {"by": "id", "how": how, "target": 0}, "bound": 0 if q else 1, "time_horizon": 0.5 if q else 1.0})
